@@ -62,6 +62,11 @@ pub struct SimReader {
   _keep: Vec<Box<dyn std::any::Any>>,
 }
 
+fn eid_bytes(e: EntityId) -> [u8; 4] {
+  use speedy::Writable;
+  let t = e.write_to_vec_with_ctx(speedy::Endianness::BigEndian).unwrap();
+  [t[0], t[1], t[2], t[3]]
+}
 pub fn wguid(w: u8) -> GUID {
   guid(10 + w, writer_eid(1))
 }
@@ -181,6 +186,32 @@ impl SimReader {
   }
   pub fn frag_bytes(&self, w: u8, sn: i64, k: u8, pad: usize, f: u32) -> Vec<u8> {
     wire::datafrag_msg(&self.cc(w, sn, k, pad), self.reader_eid, f, self.cfg.frag_size, Some(Self::src_ts(w, sn)))
+  }
+  /// A GAP as another implementation may send it: gapList given as raw (numBits, bitmap words), the unused
+  /// low bits of the last word not necessarily zero.  Little-endian, INFO_DST-less, addressed to this reader.
+  pub fn gap_raw_bytes(&self, w: u8, start: i64, base: i64, num_bits: u32, words: &[u32]) -> Vec<u8> {
+    let wg = wguid(w);
+    let mut b: Vec<u8> = vec![];
+    b.extend_from_slice(b"RTPS");
+    b.extend_from_slice(&[2, 4, 1, 18]);
+    b.extend_from_slice(&wg.prefix.bytes);
+    let mut body: Vec<u8> = vec![];
+    body.extend_from_slice(&eid_bytes(self.reader_eid));
+    body.extend_from_slice(&eid_bytes(wg.entity_id));
+    let sn = |v: i64, out: &mut Vec<u8>| {
+      out.extend_from_slice(&((v >> 32) as i32).to_le_bytes());
+      out.extend_from_slice(&(v as u32).to_le_bytes());
+    };
+    sn(start, &mut body);
+    sn(base, &mut body);
+    body.extend_from_slice(&num_bits.to_le_bytes());
+    for x in words {
+      body.extend_from_slice(&x.to_le_bytes());
+    }
+    b.extend_from_slice(&[0x08, 0x01]);
+    b.extend_from_slice(&(body.len() as u16).to_le_bytes());
+    b.extend_from_slice(&body);
+    b
   }
   /// a DATA the reader cannot turn into an ordinary sample (see `wire::odd_data_msg`)
   pub fn odd_bytes(&self, w: u8, sn: i64, variant: u8) -> Vec<u8> {
